@@ -4,12 +4,14 @@ import (
 	"bytes"
 	"fmt"
 	"sync"
+	"sync/atomic"
 	"time"
 
 	"github.com/plgd-dev/go-coap/v3/message"
 	"github.com/plgd-dev/go-coap/v3/message/codes"
 	"github.com/plgd-dev/go-coap/v3/message/pool"
 	"github.com/plgd-dev/go-coap/v3/net/responsewriter"
+	"github.com/plgd-dev/go-coap/v3/options/config"
 	udpclient "github.com/plgd-dev/go-coap/v3/udp/client"
 
 	"verifharness/ref"
@@ -36,10 +38,19 @@ func runBlockwiseUploads(rec *vr.Rec, values []uint32) {
 		}
 	}
 	var mu sync.Mutex
+	var finished atomic.Int64
 	runs := map[string]int{}
 	s := sim.NewMemSession()
 	cc := sim.NewUDPConn(s, sim.UDPOpts{Blockwise: true, SZX: 0, BWTimeout: 3 * time.Second,
-		Mutate: func(cfg *udpclient.Config) { cfg.GetMID = func() int32 { return 40000 + 0xffff/2 } },
+		Mutate: func(cfg *udpclient.Config) {
+			cfg.GetMID = func() int32 { return 40000 + 0xffff/2 }
+			// completion of a queued message is observed, not timed: the reply to the first block is written by the receive
+			// goroutine, and it must be on the wire before the window for the last block's replies opens
+			cfg.ProcessReceivedMessage = func(req *pool.Message, c *udpclient.Conn, h config.HandlerFunc[*udpclient.Conn]) {
+				c.ProcessReceivedMessageWithHandler(req, h)
+				finished.Add(1)
+			}
+		},
 		Handler: func(w *responsewriter.ResponseWriter[*udpclient.Conn], r *pool.Message) {
 			b, _ := r.ReadBody()
 			if len(b) != 32 {
@@ -70,23 +81,19 @@ func runBlockwiseUploads(rec *vr.Rec, values []uint32) {
 			}
 			return o
 		}
-		before := len(s.Log())
+		f0 := finished.Load()
 		_ = cc.Process(nil, ref.EncodeUDP(ref.Msg{Type: typ, Code: 2, MID: mid1, Token: tok, Opts: opts(0, true), Payload: body[:16]}))
-		// the first block is answered (or, suppressed, not): either way the connection is done with it when the receive
-		// queue has moved on; a confirmable block is always acknowledged
-		if c.Con {
-			sim.WaitFor(3*time.Second, func() bool { return len(s.Log()) > before })
-		} else {
-			time.Sleep(300 * time.Microsecond)
-		}
+		// the first block is answered (or, suppressed, not): the connection is done with it when the receive path has
+		// processed it to the end
+		sim.WaitFor(5*time.Second, func() bool { return finished.Load() > f0 })
 		mark := len(s.Log())
+		f1 := finished.Load()
 		_ = cc.Process(nil, ref.EncodeUDP(ref.Msg{Type: typ, Code: 2, MID: mid2, Token: tok, Opts: opts(1, false), Payload: body[16:]}))
-		ran := sim.WaitFor(3*time.Second, func() bool { mu.Lock(); defer mu.Unlock(); return runs[string(tok)] >= 1 })
+		sim.WaitFor(5*time.Second, func() bool { return finished.Load() > f1 })
+		mu.Lock()
+		ran := runs[string(tok)] >= 1
+		mu.Unlock()
 		sup := c.V != 0xffffffff && suppressed(c.V, c.Code) // 0xffffffff: the request carries no No-Response option
-		if c.Con || !sup {
-			sim.WaitFor(2*time.Second, func() bool { return len(s.Log()) > mark })
-		}
-		time.Sleep(300 * time.Microsecond)
 		rec.Eval(fmt.Sprintf("bw-upload|%d|%d|%v", c.V, c.Code, c.Con))
 		rec.Count("blockwise_upload_cases", 1)
 		mu.Lock()
